@@ -45,7 +45,7 @@ CHECKS = {
  "C05": dict(
     level=TV, design="2/C05", engine="detref",
     technique="z3 polynomial-identity check of each derived ISR expectation-value block contribution and transition moment against the order-n coefficient of the explicit matrix element (operator minus ground-state expectation value) between intermediate states / the normalised perturbed ground state built on occupation bit strings, contracted with free amplitude vectors using the documented normalisation",
-    text="For pp/ip/ea (thorough: dip/dea too) and the mixed ip/pp, pp/ea combinations, blocks of the two lowest classes, 1- and 2-particle operators, explicit and default operator strings, orders <=2 (and the third-order lowest diagonal block with first-order singles), subtract_gs on/off, the scalar returned by the real code equals the explicit matrix-element contraction for all integrals, operator matrices, amplitude vectors and ground-state amplitudes of the model; expectation_value / trans_moment (which only sum contributions) vs the sum over the harness' own truncation table.",
+    text="For pp/ip/ea, dip/dea (quick: lowest diagonal block to order 2, second-order coupling blocks and second-order doubles transition moment; thorough: all blocks) and the mixed ip/pp, pp/ea combinations, blocks of the two lowest classes, 1- and 2-particle operators, explicit and default operator strings, orders <=2 (and the third-order lowest diagonal block with first-order singles), subtract_gs on/off, the scalar returned by the real code equals the explicit matrix-element contraction for all integrals, operator matrices, amplitude vectors and ground-state amplitudes of the model; expectation_value / trans_moment (which only sum contributions) vs the sum over the harness' own truncation table.",
     note="Same parametrisation and models as C03. Operator strings with unequal numbers of creators/annihilators are covered for transition moments (default string per variant + one non-default)."),
  "C20": dict(
     level=TV, design="2/C20", engine="tvsmt",
@@ -95,7 +95,7 @@ CHECKS = {
  "C11": dict(
     level=TV, design="2/C11", engine="tvsmt",
     technique="SMT translation validation of expand_intermediates / factor_intermediates / reduce_expr under the valuation in which every registered intermediate tensor takes the value of its fully expanded registered definition (evaluated from expand_itmd); two-stage z3 decision over integrals, orbital energies, free tensors and target assignments",
-    text="Products of an intermediate tensor (second- and third-order amplitudes / densities, composite intermediates) with free tensors (any subset of indices contracted, optional Fock factor, second intermediate or second copy of the same intermediate), long intermediates times an ERI with rescaled terms (mixed prefactors) for factor_intermediates, and library results (E(2), E(3), second-order density, ip h/h and pp ph/ph second-order blocks, real and Fock-diagonalised); all requested subsets / types / max_order for factorisation; fully vs once expanded.",
+    text="Products of an intermediate tensor (second- and third-order amplitudes / densities, composite intermediates) with free tensors (any subset of indices contracted, optional Fock factor, second intermediate or second copy of the same intermediate), long intermediates times an ERI with rescaled terms (mixed prefactors) and V^n/D^m with unequal exponents n != m <= 3 of integral and orbital-energy bracket for factor_intermediates, and library results (E(2), E(3), second-order density, ip h/h and pp ph/ph second-order blocks, real and Fock-diagonalised); all requested subsets / types / max_order for factorisation; fully vs once expanded.",
     note="Model 2o2v; quadruples outside; cases in which the library does not finish within the per-case limit give no verdict (counted)."),
  "C15": dict(
     level=TV, design="2/C15", engine="tvsmt",
